@@ -218,6 +218,41 @@ def rule_rcu_shape(fx, col):
     col.add('RCU-SHAPE', 'rcu|retry only on interference', cls == 'L-INTERFERENCE', '%s: %s' % (cls, why))
 
 
+def rule_wrapper_pure(fx, col):
+    """The public operations are pass-throughs: `load` and `compare_and_swap` hand the cell to the strategy exactly once on
+    every path and return what it returned; the existing public operations touch the cell directly only where the table says
+    (swap's RMW, get_mut in into_inner / Drop). A "cheap check first" in the wrapper takes the verdict from an unprotected
+    read and the reply from another one."""
+    cx = O.ctx(fx)
+    allowed = {'arc_swap::ArcSwapAny::swap': {'swap'}, 'arc_swap::ArcSwapAny::into_inner': {'get_mut'}, '<ArcSwapAny as std::ops::Drop>::drop': {'get_mut'}}
+    OPS = ('load', 'load_full', 'store', 'swap', 'compare_and_swap', 'rcu', 'into_inner', 'drop')
+    n = 0
+    for b in fx.lib.bodies:
+        if b.j.get('impl_self_adt') != 'arc_swap::ArcSwapAny' or b.name not in OPS:
+            continue  # a new, additional method is not an existing operation: nothing is claimed about it here
+        for s_ in cx.summ.sites_by_body.get(b.key, ()):
+            if s_.cls == 'cell':
+                n += 1
+                col.add('WRAPPER-PURE', '%s|cell.%s' % (b.fname, s_.op), s_.op in allowed.get(b.fname, ()),
+                        'direct access to the cell from the strategy-agnostic layer (allowed: swap in swap, get_mut in into_inner / Drop)', s_.loc)
+    col.floor('WRAPPER-PURE', 'direct cell accesses in ArcSwapAny', n, 3)
+    for fname, callee in (('arc_swap::ArcSwapAny::load', 'load'), ('arc_swap::ArcSwapAny::compare_and_swap', 'compare_and_swap')):
+        b = _body(fx, fname)
+        if not col.anchor('WRAPPER-PURE', fname, b is not None):
+            continue
+        sc = [(bb, t) for bb, t in b.calls(include_cleanup=False) if U.callee_name(t) == callee and (t['callee'].get('trait') or '').startswith(SEALED)]
+        rets = [x for x in range(b.n) if b.term(x)['k'] == 'return']
+        ok = len(sc) == 1 and b.postdominates(sc[0][0], 0) and all(b.dominates(sc[0][0], r) for r in rets)
+        col.add('WRAPPER-PURE', '%s|one strategy call on every path' % fname, ok, '%d call(s) of the strategy\'s %s; it is on every path to return' % (len(sc), callee))
+        if ok:
+            thr = lambda t: [0] if U.callee_name(t) in ('from_inner',) else None
+            src = b.origins(0, fields=True, through_calls=thr) if 'fields' in b.origins.__code__.co_varnames else b.origins(0)
+            col.add('WRAPPER-PURE', '%s|returns the strategy\'s answer' % fname, ('call', sc[0][0]) in src and not any(o[0] == 'call' and o[1] != sc[0][0] for o in src),
+                    'the guard returned wraps the protection produced by that call (sources: %s)' % sorted(src, key=str))
+        others = [U.callee_name(t) for bb, t in b.calls(include_cleanup=False) if (bb, t) not in sc and t['callee'].get('krate') == 'arc_swap']
+        col.add('WRAPPER-PURE', '%s|nothing else' % fname, not others, 'other calls into the crate: %s' % others)
+
+
 def rule_api_agnostic(fx, col):
     lib = fx.lib
     n = 0
@@ -305,6 +340,15 @@ def rule_lock_span(fx, col):
                 after |= b.reach_from(b.term(d)['target'], unwind=False)
             ok = all(b.dominates(wr[0][0], s.bb) for s in cell) and bool(drops) and not any(x in after for x in rel) and not any(s.bb in after for s in cell)
         col.add('LOCK-SPAN', 'RwLock compare_and_swap|write lock spans the exchange', ok, 'the write guard is taken before the exchange and dropped after the counts are settled')
+        # the answer is what the exchange found in the cell, on every path (no shortcut that replies without looking)
+        xs = [s_ for s_ in cell if s_.op.startswith('compare_exchange')]
+        rets = [x for x in range(b.n) if b.term(x)['k'] == 'return']
+        on_all = len(xs) == 1 and all(b.dominates(xs[0].bb, r) for r in rets)
+        thr = lambda t: [0] if U.callee_name(t) in ('from_ptr', 'cast', 'cast_const', 'cast_mut', 'unwrap_or_else', 'unwrap_or', 'unwrap', 'expect', 'into_ok_or_err', 'map_or_else') else None
+        src = b.origins(0, through_calls=thr)
+        from_x = len(xs) == 1 and bool(src) and all(o == ('call', xs[0].bb) for o in src)
+        col.add('LOCK-SPAN', 'RwLock compare_and_swap|replies with what the exchange found', on_all and from_x,
+                'the exchange is on every path to return: %s; the value returned derives from its result only: %s (sources %s)' % (on_all, from_x, sorted(src, key=str)))
 
 
 # --------------------------------------------------------------------------------------------
@@ -374,6 +418,39 @@ def rule_cache_shape(fx, col):
         ok = len(il) == 1 and len(pc) == 1 and ('call', il[0][0]) in mc.origins(pc[0][1]['args'][1]) and pc[0][1]['dest']['local'] == 0 or \
             (len(il) == 1 and len(pc) == 1 and ('call', il[0][0]) in mc.origins(pc[0][1]['args'][1]) and ('call', pc[0][0]) in mc.origins(0))
         col.add('CACHE-SHAPE', 'MapCache::load|projection of this load', ok, 'the projection is applied to the reference returned by this very inner.load() and its result is returned (no memoised projection)')
+    # a copy of a cache follows the same container with the same value: Clone is derived, or a hand-written impl carries every
+    # field over (an "optimised" clone_from that takes only the value leaves the copy on its old container)
+    for adt_key in ('arc_swap::cache::Cache', 'arc_swap::cache::MapCache'):
+        adt = lib.adts.get(adt_key)
+        imps = [i for i in lib.impls if i.get('self_adt') == adt_key and i.get('trait') == 'core::clone::Clone']
+        if not col.anchor('CACHE-SHAPE', 'Clone for %s' % U.short(adt_key), len(imps) == 1 and adt is not None):
+            continue
+        imp = imps[0]
+        derived = 'Clone' in (imp.get('span') or {}).get('macros', [])
+        allf = {x['name'] for x in adt['variants'][0]['fields']}
+        why = 'derived'
+        ok = derived
+        if not derived:
+            ok = True
+            why = []
+            for it in imp.get('items', []):
+                cb = lib.by_key.get(it['key'])
+                if cb is None:
+                    continue
+                touched = set()
+                for bb in range(cb.n):
+                    for st in cb.stmts(bb):
+                        if st['k'] == 'assign':
+                            for pl in O._places_of_rv(st['rv']):
+                                if pl['local'] in (1, 2) or True:
+                                    for e in pl['proj']:
+                                        if e['k'] == 'field' and e.get('adt') == adt_key:
+                                            touched.add(e['name'])
+                            if st['rv']['k'] == 'aggregate' and st['rv'].get('adt') == adt_key:
+                                touched |= set(st['rv'].get('field_names', []))
+                ok = ok and touched >= allf
+                why.append('%s touches %s of %s' % (it['name'], sorted(touched), sorted(allf)))
+        col.add('CACHE-SHAPE', 'Clone for %s|whole copy' % U.short(adt_key), ok, 'Clone is %s' % why)
     ca = _body(fx, '<cache::Cache as cache::Access>::load')
     if col.anchor('CACHE-SHAPE', 'Access for Cache::load', ca is not None):
         # either through Cache::load, or revalidate() spelled out on every path before the reference is produced
@@ -423,11 +500,12 @@ def rule_access_shape(fx, col):
             for st in b.stmts(bb):
                 if st['k'] == 'assign' and st['rv']['k'] == 'aggregate' and st['rv'].get('adt') == 'arc_swap::access::MapGuard':
                     agg = st['rv']
-        ok = len(il) == 1 and agg is not None and b.origins(agg['fields'][agg['field_names'].index('guard')]) == {('call', il[0][0])} and \
+        fld = lambda name: agg['fields'][agg['field_names'].index(name)] if agg is not None and name in agg.get('field_names', []) else None
+        ok = len(il) == 1 and fld('guard') is not None and b.origins(fld('guard')) == {('call', il[0][0])} and \
             all(b.postdominates(il[0][0], 0) for _ in [0])
         col.add('MUST-LOAD', 'Map::load|fresh inner load into the guard', ok, 'one self.access.load() per call, moved into MapGuard.guard')
         if agg is not None:
-            pj = b.origins(agg['fields'][agg['field_names'].index('projection')])
+            pj = b.origins(fld('projection')) if fld('projection') is not None else set()
             okp = all(o[0] == 'call' and U.callee_name(b.term(o[1])) == 'clone' for o in pj) and bool(pj)
             col.add('MUST-LOAD', 'Map::load|projection cloned from self', okp, 'MapGuard.projection is a clone of self.projection')
     b = _body(fx, '<access::MapGuard as std::ops::Deref>::deref')
@@ -520,6 +598,16 @@ def rule_serde_shape(fx, col):
         col.add('SERDE-SHAPE', 'deserialize|the deserialized value goes in', src == {('call', de[0][0])}, 'Self::from(T::deserialize(deserializer)?)')
         extra = [U.callee_name(t) for bb, t in calls if U.callee_name(t) in ('clone', 'load', 'load_full', 'inc', 'store', 'swap')]
         col.add('SERDE-SHAPE', 'deserialize|single reference', not extra, 'no clone / load / store on the way: %s' % extra)
+    # transparency of the bounds: the container is (de)serializable exactly when its pointer is, for the same lifetime
+    norm = lambda p_: re.sub(r"'\w+", "'_", p_)
+    want = {'Serialize': {'T: ref_cnt::RefCnt', 'T: serde::Serialize', 'S: strategy::Strategy<T>'},
+            'Deserialize': {'T: ref_cnt::RefCnt', "T: serde::Deserialize<'_>", 'S: strategy::Strategy<T>', 'S: std::default::Default'}}
+    for tr, exp in want.items():
+        imps = [i for i in fx.lib.impls if (i.get('trait_pretty') or '').endswith(tr) and i.get('self_adt') == 'arc_swap::ArcSwapAny']
+        if col.anchor('SERDE-SHAPE', '%s impl (bounds)' % tr, len(imps) == 1):
+            got = {norm(x) for x in imps[0]['predicates'] if not x.endswith(': std::marker::Sized')}
+            col.add('SERDE-SHAPE', '%s|bounds are the pointer\'s own' % tr.lower(), got == exp,
+                    'where-clauses %s (expected exactly %s: e.g. DeserializeOwned would drop every pointee that borrows from the input)' % (sorted(got), sorted(exp)))
     imp = [i for i in fx.lib.impls if (i.get('trait_pretty') or '').endswith('Deserialize') and i.get('self_adt') == 'arc_swap::ArcSwapAny']
     if col.anchor('SERDE-SHAPE', 'Deserialize impl', len(imp) == 1):
         preds = ' ; '.join(imp[0]['predicates'])
